@@ -50,6 +50,17 @@ UniAt(j) ==
   LET w == UniWs[1 + ((j - 1) % Len(UniWs))]
   IN  CItem("unicode_ws", HexCmd("decode", ChanNo(j),
                                  <<48>> \o (IF j > Len(UniWs) THEN w ELSE <<>>) \o <<120, 97>> \o w \o <<98, 70>> \o w \o <<102>> \o w))
+\* LARGE valid text with a multi-byte whitespace character after every byte, under 5 alignments (0..4 leading blanks; the
+\* period is 5 bytes, so under one of the alignments the character's bytes straddle any given power-of-two offset up to
+\* the size): a reader that works in blocks must not cut a character in two.  150 KB quick, 2.6 MB thorough.
+BigWsChars == << <<226, 128, 168>>, <<227, 128, 128>>, <<225, 154, 128>> >>       \* U+2028, U+3000, U+1680
+NBigWs == 5 * (IF Thorough THEN 3 ELSE 1)
+BigWsAt(j) ==
+  LET s    == (j - 1) % 5
+      w    == BigWsChars[1 + ((j - 1) \div 5)]
+      nb   == IF Thorough THEN 530000 ELSE 30000
+      text == Rep(s, 32) \o <<48, 120>> \o Concat([i \in 1..nb |-> <<HexCodeLower((i * 7 + j) % 16), HexCodeLower((i * 3) % 16)>> \o w])
+  IN  CItem("big_unicode_ws", HexCmd("decode", ChanNo(j), text))
 MalformedAt(j) == CItem("malformed", HexCmd("decode", ChanNo(j), Malformed[j]))
 \* large malformed input: the fault lies far behind the beginning (nothing may be written before it is found)
 BigBadSizes == <<2047, 2048, 2049, 3000, 5000, 70000>>
@@ -98,7 +109,8 @@ O5 == O4 + 2 * Len(UniWs)
 O6 == O5 + NMagicItems
 O7 == O6 + NEveryByte
 O8 == O7 + NAlias
-Count == O8 + NHuge
+O9 == O8 + NHuge
+Count == O9 + NBigWs
 ItemAt(g) ==
   IF g <= O1 THEN (IF g % 2 = 1 THEN EncAt((g + 1) \div 2) ELSE DecAt(g \div 2, g))
   ELSE IF g <= O2 THEN LayoutAt(g - O1)
@@ -108,7 +120,8 @@ ItemAt(g) ==
   ELSE IF g <= O6 THEN MagicAt(g - O5)
   ELSE IF g <= O7 THEN EveryByteAt(g - O6)
   ELSE IF g <= O8 THEN AliasAt(g - O7)
-  ELSE HugeAt(g - O8)
+  ELSE IF g <= O9 THEN HugeAt(g - O8)
+  ELSE BigWsAt(g - O9)
 Histories == 0
 VARIABLE n
 INSTANCE GenBase
